@@ -41,6 +41,14 @@ L0_THOROUGH = [
     mc("mc", "BigZMC.tla", "BigZMC_b4.cfg", workers=8, tiers=T),
 ]
 
+CANON = [algo("Canon.tla", "Canon_q.cfg", workers=4, heap="4g"),
+         algo("Canon.tla", "Canon_cal_sub_no_normalize.cfg", workers=2, heap="2g", expect="violation"),
+         algo("Canon.tla", "Canon_cal_from_biguint_zero_keeps_sign.cfg", workers=2, heap="2g", expect="violation"),
+         algo("Canon.tla", "Canon_cal_and_no_truncate.cfg", workers=2, heap="2g", expect="violation"),
+         algo("Canon.tla", "Canon_cal_add_always_push.cfg", workers=2, heap="2g", expect="violation"),
+         algo("Canon.tla", "Canon_t2.cfg", workers=8, heap="6g", tiers=T),
+         algo("Canon.tla", "Canon_t1.cfg", workers=14, heap="8g", tiers=T)]
+
 PROPS = {
     "C01": {
         "mc": L0_QUICK + L0_THOROUGH + [
@@ -113,7 +121,7 @@ PROPS = {
         "drivers": [drv("matrix", "debug", shards={"quick": 8, "thorough": 14}, env={"HARNESS_SAMPLE": "2"}, tiers=Q), drv("matrix", "debug", tiers=T), drv("gcd", "debug"), drv("gcd", "release", tiers=T)],
     },
     "C19": {
-        "mc": L0_QUICK + L0_THOROUGH,
+        "mc": L0_QUICK + L0_THOROUGH + CANON[:3],
         "drivers": [drv("sign", "debug"), drv("sign", "release", tiers=T),
                     drv("sign", "debug", shards={"quick": 6, "thorough": 10}, env={"HARNESS_ROOMY": "1"})],
     },
@@ -126,7 +134,7 @@ PROPS = {
         "drivers": [drv("rand", "debug"), drv("rand", "release", tiers=T)],
     },
     "C04": {
-        "mc": L0_QUICK + L0_THOROUGH,
+        "mc": L0_QUICK + L0_THOROUGH + CANON,
         "drivers": [drv("matrix", "debug", shards={"quick": 8, "thorough": 14}, env={"HARNESS_SAMPLE": "2"}, tiers=Q), drv("matrix", "debug", tiers=T), drv("history", "debug"), drv("history", "release", tiers=T), drv("matrix", "debug", shards={"quick": 6, "thorough": 10}, env={"HARNESS_ROOMY": "1", "HARNESS_SAMPLE": "3"}), drv("history", "debug", shards={"quick": 6, "thorough": 10}, env={"HARNESS_ROOMY": "1", "HARNESS_SAMPLE": "2"}),
                     drv("origins", "debug", shards={"quick": 10, "thorough": 14}),
                     # a cross-section of every other family: the representation rule is judged on every register any call writes
